@@ -286,6 +286,17 @@ fn gen_pair(src: &mut Src) -> Pair {
             };
             let mut helpers = vec![format!("{p} {{{params}}} ::= {tt}SEQUENCE {{ {tmpl} }}")];
             helpers.extend(arg_helpers);
+            // the dummy references are local to the template: a value assignment (and a type)
+            // spelled like one of them, but not like the others, must not reach the instance
+            let clash = if np >= 2 { src.pick(3) } else { 0 };
+            let mut clash_helpers: Vec<String> = vec![];
+            if clash == 1 {
+                clash_helpers.push("vp INTEGER ::= 99".to_string());
+            } else if clash == 2 {
+                clash_helpers.push("vp INTEGER ::= 99".to_string());
+                clash_helpers.push("Tp ::= OCTET STRING".to_string());
+            }
+            helpers.extend(clash_helpers.iter().cloned());
             // further instantiations of the same template must not disturb this one
             for k in 0..src.pick(3) {
                 let other_args = match np {
@@ -296,10 +307,11 @@ fn gen_pair(src: &mut Src) -> Pair {
                 helpers.push(format!("Other-Inst{k} ::= {p} {{{other_args}}}"));
             }
             Pair {
-                kind: format!("parameterized x{np}{}{}", ["", " (argument constrained by a value reference)", " (argument is an instantiation)"][arg_kind], if ta.is_empty() { "" } else { " (tagged template components)" }) + if tt.is_empty() { "" } else { " (tagged template)" },
+                kind: format!("parameterized x{np}{}{}", ["", " (argument constrained by a value reference)", " (argument is an instantiation)"][arg_kind], if ta.is_empty() { "" } else { " (tagged template components)" }) + if tt.is_empty() { "" } else { " (tagged template)" } + ["", " (a value is spelled like a dummy reference)", " (a value and a type are spelled like dummy references)"][clash],
                 sugared: arrange(src, helpers, format!("{TARGET} ::= {p} {{{args}}}")),
                 expanded: {
                     let mut e = arg_expanded_helpers;
+                    e.extend(clash_helpers.iter().cloned());
                     e.push(format!("{TARGET} ::= {tt}SEQUENCE {{ {expd} }}"));
                     e
                 },
